@@ -15,6 +15,7 @@ import (
 	"io"
 	"net"
 	"net/http"
+	"regexp"
 	"sort"
 	"strings"
 	"sync"
@@ -80,6 +81,8 @@ func chunksOf(tag string, kind string) []string {
 		n = 3 + len(tag)%4
 	case "early":
 		n, pad = 2, 20000
+	case "slow":
+		n, pad = 5, 3000
 	}
 	var out []string
 	for j := 0; j < n; j++ {
@@ -122,7 +125,28 @@ func (o *origin) handler(w http.ResponseWriter, r *http.Request) {
 		}
 	}
 	defer release()
+	if kind == "earlyreply" && r.ProtoMajor >= 2 {
+		// answer before the upload was read: the client's read loop handles (and dumps) the
+		// response head while its request goroutine is still sending (and dumping) the body
+		w.Header().Set("X-Tag-Echo", tag)
+		w.Header().Set("X-Proto", r.Proto)
+		w.WriteHeader(200)
+		if fl, ok := w.(http.Flusher); ok {
+			fl.Flush()
+		}
+	}
 	body, _ := io.ReadAll(r.Body)
+	if r.Method == "POST" && kind == "earlyreply" {
+		release()
+		if string(body) != "body-of-"+tag+strings.Repeat("u", 70000) {
+			w.Write([]byte("BAD-REQUEST-BODY"))
+			return
+		}
+		for _, ch := range chunksOf(tag, kind) {
+			w.Write([]byte(ch))
+		}
+		return
+	}
 	if r.Method == "POST" && string(body) != "body-of-"+tag {
 		release()
 		w.Header().Set("X-Tag-Echo", "BAD-REQUEST-BODY:"+string(body))
@@ -209,7 +233,7 @@ func newOrigin(idx int, seed uint64, useTLS bool) (*origin, error) {
 
 // one tagged request; returns "" or a description of what went wrong.
 func doTagged(c *req.Client, base, tag, kind, round string, clone bool) (problem string, proto string, errored bool) {
-	problem, proto, errored, _ = doTaggedBody(c, base, tag, kind, round, clone)
+	problem, proto, errored, _ = doTaggedBody(c, base, tag, kind, round, clone, false)
 	return
 }
 
@@ -248,7 +272,31 @@ func coqRLE(b []byte) string {
 	return "(" + strings.Join(segs, " ++ ") + ")"
 }
 
-func doTaggedBody(c *req.Client, base, tag, kind, round string, clone bool) (problem string, proto string, errored bool, body string) {
+var tagRe = regexp.MustCompile(`(?:h1|h2|h3|alt|w|h3two)-\d+-\d+-(?:g\d+-i\d+|clone-\d+)`)
+
+// dumpProblem: the request-level dump (a buffer owned by the library) of one exchange must
+// mention no other exchange's tag.
+func dumpProblem(dump, tag string) string {
+	for _, m := range tagRe.FindAllString(dump, -1) {
+		if m != tag && !strings.HasPrefix(tag, m) {
+			return fmt.Sprintf("request-level dump of %s contains data of %s", tag, m)
+		}
+	}
+	if !strings.Contains(dump, tag) {
+		return fmt.Sprintf("request-level dump of %s does not mention it (len %d)", tag, len(dump))
+	}
+	return ""
+}
+
+func doTaggedBody(c *req.Client, base, tag, kind, round string, clone bool, dump bool) (problem string, proto string, errored bool, body string) {
+	var dumpText func() string
+	if dump {
+		defer func() {
+			if problem == "" && !errored && dumpText != nil {
+				problem = dumpProblem(dumpText(), tag)
+			}
+		}()
+	}
 	rq := c.R().SetHeader("X-Tag", tag).SetHeader("X-Round", round)
 	if clone {
 		rq.SetHeader("X-Clone", "1")
@@ -258,14 +306,23 @@ func doTaggedBody(c *req.Client, base, tag, kind, round string, clone bool) (pro
 	case "post":
 		method = "POST"
 		rq.SetBody("body-of-" + tag)
+	case "earlyreply":
+		method = "POST"
+		rq.SetBody("body-of-" + tag + strings.Repeat("u", 70000))
 	case "head":
 		method = "HEAD"
 	case "early":
 		rq.DisableAutoReadResponse()
 	}
+	if dump {
+		rq.EnableDump()
+	}
 	resp, err := rq.Send(method, base+"/?k="+kind)
 	if err != nil {
 		return "", "", true, ""
+	}
+	if dump {
+		dumpText = resp.Dump
 	}
 	if resp.Response == nil {
 		return "nil response without error", "", false, ""
@@ -567,9 +624,15 @@ func runMux(cr *childResult, rng *hk.Rand, c *req.Client, base string, o *origin
 		go func(g int) {
 			defer wg.Done()
 			for i := 0; i < n/callers; i++ {
-				kind := hk.Pick(lr, []string{"multi", "multi", "big", "get", "post", "head"})
+				kind := hk.Pick(lr, []string{"multi", "multi", "big", "get", "post", "head", "earlyreply"})
 				tag := fmt.Sprintf("%s-g%d-i%d", roundID, g, i)
-				problem, proto, errored, body := doTaggedBody(c, base, tag, kind, roundID, false)
+				withDump := lr.Chance(25)
+				problem, proto, errored, body := doTaggedBody(c, base, tag, kind, roundID, false, withDump)
+				if withDump {
+					mu.Lock()
+					cr.count(label + ".requests_with_dump")
+					mu.Unlock()
+				}
 				mu.Lock()
 				if problem != "" {
 					cr.fail(hk.Failure{Sig: "crosstalk:" + label + ":" + kind, What: "caller did not receive the response to its own request on a multiplexed connection",
@@ -610,7 +673,7 @@ func phaseH2(cr *childResult, seed uint64, quick bool) {
 	defer o.srv.Close()
 	o.logWire = true
 	for round := 0; round < rounds; round++ {
-		c := req.C().EnableInsecureSkipVerify().SetTimeout(30 * time.Second)
+		c := req.C().EnableInsecureSkipVerify().SetTimeout(90 * time.Second)
 		roundID := fmt.Sprintf("h2-%d-%d", seed, round)
 		stop := make(chan struct{})
 		var bg sync.WaitGroup
@@ -664,10 +727,83 @@ func phaseH3(cr *childResult, seed uint64, quick bool) {
 	defer srv3.Close()
 	// (a) forced HTTP/3
 	for round := 0; round < rounds; round++ {
-		c := req.C().EnableInsecureSkipVerify().EnableForceHTTP3().SetTimeout(30 * time.Second)
+		c := req.C().EnableInsecureSkipVerify().EnableForceHTTP3().SetTimeout(90 * time.Second)
 		roundID := fmt.Sprintf("h3-%d-%d", seed, round)
 		runMux(cr, rng, c, "https://"+o3.addr, o3, "h3", roundID, perRound, rng.Range(4, 10), "HTTP/3.0")
 	}
+	// (a') two HTTP/3 authorities used for the first time at the same moment by one client (the
+	// QUIC transport of the RoundTripper is created lazily by whichever dial comes first), with
+	// CloseIdleConnections running concurrently
+	pcB, err := net.ListenPacket("udp", "127.0.0.1:0")
+	if err != nil {
+		cr.Notes = append(cr.Notes, "h3: second loopback UDP socket not available: "+err.Error())
+		return
+	}
+	o3b := &origin{idx: 2, addr: pcB.LocalAddr().String(), wire: map[int64][][2]string{}, delayRand: &lockedRand{r: hk.NewRand(seed + 5)}}
+	srv3b := &qh3.Server{
+		TLSConfig: qh3.ConfigureTLSConfig(&tls.Config{Certificates: []tls.Certificate{cert}}),
+		Handler:   http.HandlerFunc(o3b.handler),
+	}
+	go srv3b.Serve(pcB)
+	defer srv3b.Close()
+	for round := 0; round < rounds; round++ {
+		c := req.C().EnableInsecureSkipVerify().EnableForceHTTP3().SetTimeout(90 * time.Second)
+		roundID := fmt.Sprintf("h3two-%d-%d", seed, round)
+		var wg sync.WaitGroup
+		start := make(chan struct{})
+		stop := make(chan struct{})
+		var mu sync.Mutex
+		for g := 0; g < 8; g++ {
+			wg.Add(1)
+			lr := rng.Fork()
+			go func(g int) {
+				defer wg.Done()
+				<-start
+				for i := 0; i < 6; i++ {
+					base := "https://" + o3.addr
+					if (g+i)%2 == 1 {
+						base = "https://" + o3b.addr
+					}
+					kind := hk.Pick(lr, []string{"multi", "get", "post", "head"})
+					tag := fmt.Sprintf("%s-g%d-i%d", roundID, g, i)
+					problem, proto, errored := doTagged(c, base, tag, kind, roundID, false)
+					mu.Lock()
+					if problem != "" {
+						cr.fail(hk.Failure{Sig: "crosstalk:h3two:" + kind, What: "caller did not receive the response to its own request (two HTTP/3 authorities)",
+							Input: map[string]interface{}{"round": roundID, "tag": tag, "kind": kind}, Got: problem, Want: tag})
+					}
+					if errored {
+						cr.count("h3two.requests_errored")
+					} else {
+						cr.count("h3two.requests_ok")
+						cr.count("h3two.proto=" + proto)
+					}
+					mu.Unlock()
+				}
+			}(g)
+		}
+		var bg sync.WaitGroup
+		bg.Add(1)
+		go func() {
+			defer bg.Done()
+			for {
+				select {
+				case <-stop:
+					return
+				case <-time.After(2 * time.Millisecond):
+					c.GetTransport().CloseIdleConnections()
+				}
+			}
+		}()
+		close(start)
+		wg.Wait()
+		close(stop)
+		bg.Wait()
+		c.GetTransport().CloseIdleConnections()
+	}
+	o3.wireMu.Lock()
+	o3.wire = map[int64][][2]string{} // the log of (a') is not turned into cases
+	o3.wireMu.Unlock()
 	// (b) Alt-Svc upgrade: an h2 origin advertises the h3 endpoint; callers keep hammering
 	o2, err := newOrigin(0, seed+7, true)
 	if err != nil {
@@ -678,7 +814,7 @@ func phaseH3(cr *childResult, seed uint64, quick bool) {
 	_, port, _ := net.SplitHostPort(o3.addr)
 	o2.altSvc = `h3=":` + port + `"; ma=3600`
 	for round := 0; round < rounds; round++ {
-		c := req.C().EnableInsecureSkipVerify().EnableHTTP3().SetTimeout(30 * time.Second)
+		c := req.C().EnableInsecureSkipVerify().EnableHTTP3().SetTimeout(90 * time.Second)
 		roundID := fmt.Sprintf("alt-%d-%d", seed, round)
 		// several hosts names for the same origin would need DNS; one authority, many callers
 		runMux(cr, rng, c, "https://"+o2.addr, o2, "altsvc", roundID, perRound*2, rng.Range(6, 12), "")
